@@ -8,7 +8,7 @@ from av.props import simprop
 MANIFEST_ENTRY = {
     "category": "exploration",
     "technique": "history checker over restart chains: original run -> save state at grid year Y -> restart at Y (-> save -> restart again), every output array of the restarted run compared with the tail of the original; spreadsheet form through calibration_spreadsheet / load_calibration; generated and shipped (corpus) models",
-    "text": "Generated models (junctions, timed compartments with one and many bins, duration groups, transfers, programs starting before / at / after Y) are run, the state at a grid year Y is saved into a copy of the parameter set with set_initialization, the simulation is restarted at Y and all compartments (and per-bin contents), flows, characteristics and parameters are compared with the original run at every index >= Y: bit for bit when the restarted time grid equals the tail of the original grid bit for bit, to 1e-9 otherwise. Chains restart a restart. The saved state is also written with calibration_spreadsheet, loaded into a fresh parameter set with load_calibration, and the restarted run compared (initial state to 1e-15, trajectories to 1e-9). Every 8th case restarts a shipped (corpus) model under perturbation (hand-made junction + duration-group layouts, several population types); models with derivative or random functions are excluded as the property states. 15% of the restarts are at the first time point of the saved run. Half of the calibration files are loaded into a parameter set that already holds a saved state of another year.",
+    "text": "Generated models (junctions, timed compartments with one and many bins, duration groups, transfers, programs starting before / at / after Y) are run, the state at a grid year Y is saved into a copy of the parameter set with set_initialization, the simulation is restarted at Y and all compartments (and per-bin contents), flows, characteristics and parameters are compared with the original run at every index >= Y: bit for bit when the restarted time grid equals the tail of the original grid bit for bit, to 1e-9 otherwise. Chains restart a restart. The saved state is also written with calibration_spreadsheet, loaded into a fresh parameter set with load_calibration, and the restarted run compared (initial state to 1e-15, trajectories to 1e-9). Every 8th case restarts a shipped (corpus) model under perturbation (hand-made junction + duration-group layouts, several population types); models with derivative or random functions are excluded as the property states. 15% of the restarts are at the first time point of the saved run. Half of the calibration files are loaded into a parameter set that already holds a saved state of another year. One case in sixteen is a single-compartment multi-population model taken through the spreadsheet restart, one in sixteen restarts at the year 0 of a shifted calendar; drift on grids that differ in the last bit is judged against the measured drift of a one-ulp change of the saved state.",
     "note": "When the two time grids differ in the last bit, or the state went through the 16-17 digit spreadsheet, only models whose parameter functions are continuous (no comparisons / floor) and mildly scaled are compared beyond the first index, because a discontinuous function may legitimately amplify a last-bit difference; those cases are counted, not judged.",
 }
 
